@@ -454,6 +454,45 @@ def comment_variants(code: str):
     return [("comment_above", new)] if new != code and _same_ast(code, new) else []
 
 
+def own_block_variants(code: str, rng=None, limit=3):
+    """One simple single-line statement moved into a block of its own (`if True:` / `try:` / `with`), with an explanatory
+    comment above it or trailing on it, or bare: the statement becomes the ONLY statement of its block."""
+    import ast
+    import random as _random
+    rng = rng or _random.Random(0)
+    try:
+        tree = ast.parse(code)
+    except (SyntaxError, ValueError, RecursionError):
+        return []
+    lines = code.splitlines(keepends=True)
+    per_line = {}
+    for n in ast.walk(tree):
+        if isinstance(n, ast.stmt):
+            per_line.setdefault(n.lineno, []).append(n)
+    cands = [n for n in ast.walk(tree) if isinstance(n, (ast.Expr, ast.Assign, ast.AugAssign, ast.Return, ast.Raise, ast.Import))
+             and n.lineno == n.end_lineno and len(per_line.get(n.lineno, [])) == 1
+             and not (isinstance(n, ast.Expr) and isinstance(n.value, ast.Constant))]
+    rng.shuffle(cands)
+    out = []
+    for k, n in enumerate(cands[:limit]):
+        l = lines[n.lineno - 1]
+        indent = l[:len(l) - len(l.lstrip())]
+        body = l.strip()
+        opener, closer = rng.choice([("if True:", ""), ("try:", "{i}except Exception:\n{i}    raise\n"),
+                                     ("for _once in (0,):", ""), ("while True:", "{i}    break\n")])
+        style = ["comment_above", "trailing_comment", "bare"][(k + rng.randrange(2)) % 3] if rng.random() < 0.85 else "bare"
+        if opener == "while True:" and isinstance(n, (ast.Return, ast.Raise)):
+            closer = ""
+        inner = f"{indent}    {body}" + ("  # FIXME: look at this" if style == "trailing_comment" else "") + "\n"
+        if style == "comment_above":
+            inner = f"{indent}    # why does this happen here?\n" + inner
+        block = f"{indent}{opener}\n" + inner + closer.replace("{i}", indent)
+        new = "".join(lines[:n.lineno - 1]) + block + "".join(lines[n.lineno:])
+        if parses(new):
+            out.append((f"own_block_{style}_{k}", new))
+    return out
+
+
 def composed_variants(code: str, rng, k=4):
     """A structural wrapper with a layout / comment / context variant applied on top of it."""
     base = [v for v in _variants_basic(code, True) if v[0].startswith("in_")]
@@ -481,5 +520,6 @@ def variants(code: str, shift_ok: bool, rng=None):  # noqa: F811
         out.extend(nested_call_variants(code if code.endswith("\n") else code + "\n", rng))
         out.extend(twin_import_variants(code))
         out.extend(comment_variants(code if code.endswith("\n") else code + "\n"))
+        out.extend(own_block_variants(code if code.endswith("\n") else code + "\n", rng))
         out.extend(composed_variants(code if code.endswith("\n") else code + "\n", rng or __import__("random").Random(0)))
     return out
